@@ -14,6 +14,7 @@ mod rt;
 mod mux;
 mod srv;
 mod wsx;
+mod life;
 
 fn main() {
     let args: Vec<String> = std::env::args().collect();
@@ -43,6 +44,7 @@ fn main() {
         "srv-c03" => srv::c03(&a),
         "ws-c16" => wsx::c16(&a),
         "ws-c17" => wsx::c17(&a),
+        "ws-c15" => life::run(&a),
         other => {
             eprintln!("unknown engine {other}");
             2
